@@ -1884,7 +1884,12 @@ func ruleReadyContinuationLive(c *Ctx) {
 		if !ok || k != kDisposed {
 			return false, false
 		}
-		if f, _ := fieldLoad(x); f != fState {
+		f, base := fieldLoad(x)
+		if f != fState {
+			return false, false
+		}
+		// the subscription whose event this is — the receiver of the handler — not the referenced one
+		if base != nil && !isOwnReceiver(p, base) {
 			return false, false
 		}
 		switch op {
@@ -2196,4 +2201,69 @@ func ruleGCTerminates(c *Ctx) {
 	if len(visitors) < 2 {
 		c.viol(fnName(fn), "the collector's walks end on every graph", "-", "visitors not found")
 	}
+}
+
+// isOwnReceiver: v stands for the receiver of the method the code belongs to — the
+// receiver parameter itself, or, inside a closure, the captured receiver.
+func isOwnReceiver(p *Prog, v ssa.Value) bool {
+	for d := 0; d < 6; d++ {
+		switch x := v.(type) {
+		case *ssa.Parameter:
+			fn := x.Parent()
+			return fn.Signature.Recv() != nil && len(fn.Params) > 0 && fn.Params[0] == x
+		case *ssa.FreeVar:
+			mc := p.parent[x.Parent()]
+			if mc == nil {
+				return true // unknown binding: not refuted
+			}
+			for i, fv := range x.Parent().FreeVars {
+				if fv == x {
+					v = mc.Bindings[i]
+				}
+			}
+			if v == ssa.Value(x) {
+				return true
+			}
+		case *ssa.UnOp:
+			if x.Op != token.MUL {
+				return false
+			}
+			// a spilled / captured variable: what was stored into it
+			cell := x.X
+			if fv, ok := cell.(*ssa.FreeVar); ok {
+				mc := p.parent[fv.Parent()]
+				if mc == nil {
+					return true
+				}
+				for i, f2 := range fv.Parent().FreeVars {
+					if f2 == fv {
+						cell = mc.Bindings[i]
+					}
+				}
+			}
+			if fv, ok := cell.(*ssa.FreeVar); ok {
+				v = &ssa.UnOp{Op: token.MUL, X: fv}
+				continue
+			}
+			al, ok := cell.(*ssa.Alloc)
+			if !ok || al.Referrers() == nil {
+				return false
+			}
+			var only ssa.Value
+			n := 0
+			for _, r := range *al.Referrers() {
+				if st, ok := r.(*ssa.Store); ok && st.Addr == ssa.Value(al) {
+					n++
+					only = st.Val
+				}
+			}
+			if n != 1 {
+				return false
+			}
+			v = only
+		default:
+			return false
+		}
+	}
+	return false
 }
